@@ -372,7 +372,7 @@ pub fn basis() -> Vec<String> {
     v
 }
 
-fn gen_stream(src: &mut Src, _i: usize) -> Case {
+pub fn gen_stream(src: &mut Src, _i: usize) -> Case {
     let mut g = G::new(src.range(1, 20), src.range(1, 10)).with_raw(8);
     g.w[gen::CAT_INERT] = 6;
     g.w[gen::CAT_SGR] = 8;
@@ -381,7 +381,7 @@ fn gen_stream(src: &mut Src, _i: usize) -> Case {
 }
 
 /// character-class soup: random walks over the table's character classes
-fn gen_soup(src: &mut Src, _i: usize) -> Case {
+pub fn gen_soup(src: &mut Src, _i: usize) -> Case {
     let n = src.range(1, 60);
     let mut s = String::new();
     for _ in 0..n {
